@@ -153,6 +153,60 @@ theorem C03_bytes (parse : Str → Except Err PyVal) (k : Kind) (ops : List AddO
           exact hds
         · simp [dumps, hd2, Except.map, h6]
 
+/-! ### loading into an object that already holds content -/
+
+/-- obligation on the generated facts (tools/gen_builders.py): the three readers consist of the pinned statements —
+header, compose, `self.<table> = data["payload"][<key>]`, validate — i.e. they REPLACE the table.  A reader that
+re-files the records through `add()` onto whatever the object holds is `.unknown` and breaks this. -/
+theorem C03_load_modes : ∀ k : Kind, k.loadMode = .replace := by
+  intro k; cases k <;> decide
+
+theorem deserialize_payload (k : Kind) (doc : PyVal) (m' : Manifest) (h : deserialize k doc = .ok m') :
+    ∃ pl, getItem doc (lit "payload") = .ok pl ∧ getItem pl k.payloadKey = .ok m'.payload := by
+  unfold deserialize at h
+  cases hh : headerDeserialize k doc with
+  | error e => rw [hh] at h; cases h
+  | ok vt =>
+    obtain ⟨ver, t⟩ := vt
+    rw [hh] at h
+    cases k <;> cases t <;> simp only [Bool.false_eq_true, ↓reduceIte] at h
+    all_goals
+      repeat' split at h
+      all_goals first
+        | (cases h; exact ⟨_, by assumption, by assumption⟩)
+        | cases h
+
+/-- **A load REPLACES what the object held** — for every kind, every object state `m` (fresh, filled by adds, loaded
+before) and every document: after a successful `loads`/`deserialize` the mapping is exactly the document's payload
+table, header and compose are the document's, and nothing of `m` survives (the result is the same for every prior
+state `m0`); after a refused load the mapping is what it was. -/
+theorem C03_load_replaces (k : Kind) (m : Manifest) (doc : PyVal) :
+    ((loadS k m doc).2 = .ok () →
+        (∃ pl, getItem doc (lit "payload") = .ok pl ∧ getItem pl k.payloadKey = .ok (loadS k m doc).1.payload)
+        ∧ deserialize k doc = .ok (loadS k m doc).1
+        ∧ ∀ m0, loadS k m0 doc = loadS k m doc)
+    ∧ (∀ e, (loadS k m doc).2 = .error e → (loadS k m doc).1.payload = m.payload) := by
+  unfold loadS
+  rw [C03_load_modes k]
+  cases hd : deserialize k doc with
+  | error e => exact ⟨fun h => by simp at h, fun _ _ => rfl⟩
+  | ok m' =>
+    refine ⟨fun _ => ⟨deserialize_payload k doc m' hd, rfl, fun m0 => rfl⟩, fun e h => by simp at h⟩
+
+/-- loading the same document again changes nothing (no accumulation) -/
+theorem C03_load_twice (k : Kind) (m : Manifest) (doc : PyVal) (h : (loadS k m doc).2 = .ok ()) :
+    loadS k (loadS k m doc).1 doc = loadS k m doc :=
+  ((C03_load_replaces k m doc).1 h).2.2 _
+
+/-- an object filled by ANY history of adds that re-reads its own dump — or is handed the dump of any other history —
+ends up holding exactly (the key-sorted form of) what was dumped, not a union with what it held -/
+theorem C03_reload_into_used_object (k : Kind) (held : Manifest) (ops : List AddOp)
+    (hargs : ∀ op ∈ ops, op.argsRep = true) (c : ComposeT) (hv : composeValidate c.toObj = .ok ()) :
+    loadS k held (reparse (docOf k c (runOps empty ops)))
+      = ({ version := .str currentVersion, compose := c.norm.toObj, payload := PyVal.canon (runOps empty ops) }, .ok ()) := by
+  unfold loadS
+  rw [C03_load_modes k, deserialize_reparse k c _ (C03_json_closed ops hargs) (composeValidate_norm c hv)]
+
 /-- the normalisation is the identity on the compose sections that a reader can produce: re-reading a re-read
 manifest changes nothing at all -/
 theorem C03_norm_idem (c : ComposeT) : c.norm.norm = c.norm := by
